@@ -57,6 +57,8 @@ def rx(n):
         return str(n.get('value'))
     if k == 'CXXDefaultArgExpr':
         return '<default>'
+    if k == 'CXXThrowExpr':
+        return 'throw' + (' ' + rx(inner[0]) if inner else '')
     if k == 'MemberExpr':
         return rx(inner[0]) + ('->' if n.get('isArrow') else '.') + n.get('name', '?')
     if k == 'UnaryOperator':
@@ -150,6 +152,18 @@ def norm_stmt(n, out, ind):
         body = norm_stmt(ch[7], out, ind + 1)
         out.append('%s}' % pad)
         return ('forrange', body)
+    if k == 'CXXTryStmt':
+        out.append(pad + 'try {')
+        body = norm_stmt(inner[0], out, ind + 1)
+        for c in inner[1:]:
+            if c.get('kind') != 'CXXCatchStmt':
+                raise Deviation('unexpected child of try: %s' % c.get('kind'))
+            ch = [x for x in c.get('inner', []) if isinstance(x, dict) and x.get('kind')]
+            var = [x for x in ch if x.get('kind') == 'VarDecl']
+            out.append('%s} catch (%s) {' % (pad, qt(var[0]) if var else '...'))
+            norm_stmt([x for x in ch if x.get('kind') == 'CompoundStmt'][0], out, ind + 1)
+        out.append(pad + '}')
+        return body
     if k == 'BreakStmt':
         out.append(pad + 'break'); return ('break',)
     if k == 'ReturnStmt':
@@ -333,6 +347,9 @@ def find_member(objs, cls, name, kinds, nested=None, nparams=None, first_param=N
         scope = m.get('inner', [])
         if nested:
             scope = [y for x in scope if x.get('kind') == 'CXXRecordDecl' and x.get('name') == nested for y in x.get('inner', [])]
+        scope = list(scope) + [y for x in scope if x.get('kind') == 'FunctionTemplateDecl' and x.get('name') == name
+                               for y in x.get('inner', []) if y.get('kind') == 'CXXMethodDecl'
+                               and any(z.get('kind') == 'TemplateArgument' for z in y.get('inner', []))]
         for x in scope:
             params = [y for y in x.get('inner', []) if y.get('kind') == 'ParmVarDecl']
             if nparams is not None and len(params) != nparams:
@@ -406,6 +423,30 @@ swap(this->mFreeRaws, row.mFreeRaws)''',
 (this->mRaw = null)
 return raw''',
 })
+EXPECTED_TEXT.update({
+    # TreiberCreate.v: CTakeRaw ; (CMakeRow | CAbort): the catch blocks give the buffer straight back to the POOL
+    'DataTable::pvCreateRaw<RawCreator>': '''var raw = this->pvAllocateRaw()
+try {
+  op(operator(), forward(rawCreator), raw)
+} catch (...) {
+  this->mRawMemPool.Deallocate(raw)
+  throw
+}
+return raw''',
+    'DataTable::pvNewRow<...>': '''var raw = this->pvCreateRaw()
+try {
+  this->pvFillRaw(raw, assigns)
+} catch (...) {
+  this->pvDestroyRaw(raw)
+  throw
+}
+return this->pvMakeRow(raw)''',
+    'DataTable::pvDestroyRaw': '''this->GetColumnList().DestroyRaw((&this->GetMemManager()), raw)
+this->mRawMemPool.Deallocate(raw)''',
+})
+TABLE_MEMBERS = [('DataTable::pvCreateRaw<RawCreator>', 'pvCreateRaw', ('CXXMethodDecl',), {'nparams': 1}),
+                 ('DataTable::pvNewRow<...>', 'pvNewRow', ('CXXMethodDecl',), {}),
+                 ('DataTable::pvDestroyRaw', 'pvDestroyRaw', ('CXXMethodDecl',), {})]
 ROW_MEMBERS = [('DataRow(DataRow&&)', 'DataRow', ('CXXConstructorDecl',), {'nparams': 1, 'first_param': '&&'}),
                ('DataRow(columnList,raw,freeRaws)', 'DataRow', ('CXXConstructorDecl',), {'nparams': 3}),
                ('DataRow::operator=(DataRow&&)', 'operator=', ('CXXMethodDecl',), {'first_param': '&&'}),
@@ -485,8 +526,9 @@ def check(repo, prog_lines):
             exp = EXPECTED_WRAPPER[fn]
             ok2 = auto == sorted(exp)
             obl.append({'name': 'AST: event order of wrapper %s' % fn, 'ok': ok2, 'detail': '' if ok2 else 'source %s / expected %s' % (auto, sorted(exp))})
-    for (fn, member, kinds, kw) in ROW_MEMBERS:
-        bodies = find_member(objs_r, 'DataRow', member, kinds, **kw)
+    for (fn, member, kinds, kw) in ROW_MEMBERS + TABLE_MEMBERS:
+        bodies = find_member(objs_r, 'DataRow', member, kinds, **kw) if (fn, member, kinds, kw) in ROW_MEMBERS else \
+            find_member(objs_t, 'DataTable', member, kinds, **kw)
         if len(bodies) != 1:
             obl.append({'name': 'AST: instantiated body of ' + fn, 'ok': False, 'detail': '%d instantiated bodies found' % len(bodies)})
             continue
@@ -501,7 +543,7 @@ def check(repo, prog_lines):
         if not ok:
             import difflib
             det = '\n'.join(difflib.unified_diff(EXPECTED_TEXT[fn].splitlines(), text.splitlines(), 'modelled', 'source', lineterm=''))
-        obl.append({'name': 'AST: %s has exactly the modelled effect on (mColumnList, mRaw, mFreeRaws) [TreiberRows.v]' % fn, 'ok': ok, 'detail': det})
+        obl.append({'name': 'AST: %s has exactly the modelled effect %s' % (fn, 'on (mColumnList, mRaw, mFreeRaws) [TreiberRows.v]' if fn.startswith('DataRow') else '[TreiberCreate.v: catch path returns the buffer to the pool]'), 'ok': ok, 'detail': det})
     return obl, report
 
 
